@@ -273,7 +273,8 @@ fn exec<const B: usize, const L: usize>(m: &mut Mon, op: &str, a: &[Arg]) {
         "num_traits" => num_traits::<B, L>(&mut c, a),
         "num_integer" => num_integer::<B, L>(&mut c, a),
         "subtle" => subtle_op::<B, L>(&mut c, a),
-        "sum_product" => sum_product::<B, L>(&mut c, a),
+        "sum_product" => sum_product::<B, L>(&mut c, a, false),
+        "sum_product_rep" => sum_product::<B, L>(&mut c, a, true),
         "zeroize" => zeroize_op::<B, L>(&mut c, a),
         _ => panic!("harness: unknown op {op}"),
     }
@@ -765,9 +766,11 @@ fn subtle_op<const B: usize, const L: usize>(c: &mut Cx, a: &[Arg]) {
 
 // ---------------------------------------------------------------- Sum / Product
 
-fn sum_product<const B: usize, const L: usize>(c: &mut Cx, a: &[Arg]) {
-    let xs: Vec<U!()> = a.iter().map(|x| uint(x.u())).collect();
-    c.m.nontrivial(a.iter().filter(|x| !gen::is_zero(x.u())).count() >= 2);
+fn sum_product<const B: usize, const L: usize>(c: &mut Cx, a: &[Arg], rep: bool) {
+    // rep: (v, w, n) stands for the n terms v, w, v, w, ...
+    let terms: Vec<&[u64]> = if rep { (0..a[2].us()).map(|i| a[i % 2].u()).collect() } else { a.iter().map(|x| x.u()).collect() };
+    let xs: Vec<U!()> = terms.iter().map(|x| uint(x)).collect();
+    c.m.nontrivial(terms.iter().filter(|x| !gen::is_zero(x)).count() >= 2);
     let e = inh!(c, xs.iter().fold(<U!()>::ZERO, |s, v| s.wrapping_add(*v)));
     chk!(c, "Sum<Uint>", xs.iter().copied().sum::<U!()>(), &e);
     chk!(c, "Sum<&Uint>", xs.iter().sum::<U!()>(), &e);
@@ -1082,6 +1085,15 @@ fn workload(m: &mut Mon, bits: usize) {
     // ---- directed: empty and singleton iterators.
     m.case("sum_product", bits, vec![]);
     m.case("sum_product", bits, vec![au(&gen::max(bits))]);
+    if !m.is_light() && bits > 0 && bits <= 1088 {
+        let mut r = m.stream("c20.long", bits);
+        for n in [255usize, 256, 257, 513, 1025] {
+            m.case("sum_product_rep", bits, vec![au(&gen::max(bits)), au(&gen::max(bits)), an(n)]);
+            let mut v = gen::hostile(&mut r, bits);
+            v[0] |= 1;
+            m.case("sum_product_rep", bits, vec![au(&v), au(&gen::max(bits)), an(n)]);
+        }
+    }
     m.case("sum_product", bits, vec![au(&gen::max(bits)), au(&gen::max(bits)), au(&gen::small(2, bits))]);
 
     // ---- seeded random cases.
